@@ -61,3 +61,23 @@ Theorem C10_response_generation :
     gen_target r = Some u -> gen_of d' u = Some (rgen rs).
 Proof. exact c10_response_generation. Qed.
 Print Assumptions C10_response_generation.
+
+(* ---------------------------------------------------------------------------------------------------------------
+   Under interleaving (Model/Conc.v: allocation writes and generation-guarded provider writes as threads; state after the
+   first k entries of the schedule = snd (at_step cf reqs s d k)): generations never decrease along ANY schedule of ANY
+   number of concurrent requests (beyond the property's quantifier over request sequences, §12 of DESIGN.md). *)
+From PV Require Import Model.Conc Proofs.ConcDefs Proofs.C05 Proofs.C06.
+
+Theorem C10_provider_monotone_all_schedules : forall cf reqs s d u k k', (k <= k')%nat ->
+  ole (gen_of (snd (at_step cf reqs s d k)) u) (gen_of (snd (at_step cf reqs s d k')) u).
+Proof. exact D_mono. Qed.
+Print Assumptions C10_provider_monotone_all_schedules.
+
+(* ... and so do consumer generations, as long as no request in flight clears the consumer (a cleared consumer is deleted
+   and may be re-created at generation 0) *)
+Theorem C10_consumer_monotone_all_schedules : forall cf reqs s d c,
+  (forall r, In r reqs -> in_scope r /\ req_wf r = true /\ ~ wipes r c) -> has_consumer d c ->
+  forall k k', (k <= k')%nat ->
+  ole (cgen_of (snd (at_step cf reqs s d k)) c) (cgen_of (snd (at_step cf reqs s d k')) c).
+Proof. exact cons_mono. Qed.
+Print Assumptions C10_consumer_monotone_all_schedules.
